@@ -33,16 +33,16 @@ GOLIBS = "github.com/AdguardTeam/golibs"
 # Per-check configuration.  runs: simulated runs per tier; race: build with
 # the race detector; bubble: concurrent check (GOMAXPROCS=1 per worker).
 CHECKS = {
-    "C08": dict(pkg="./sim/c08", race=False, quick=150_000, thorough=15_000_000),
-    "C09": dict(pkg="./sim/c09", race=False, quick=300_000, thorough=30_000_000, checkptr=True, aslimit=True),
-    "C10": dict(pkg="./sim/c10", race=True, quick=24_000, thorough=2_400_000),
-    "C11": dict(pkg="./sim/c11", race=False, quick=200_000, thorough=20_000_000),
-    "C15": dict(pkg="./sim/c15", race=False, quick=400_000, thorough=40_000_000),
-    "C17": dict(pkg="./sim/c17", race=True, quick=24_000, thorough=2_400_000,
+    "C08": dict(pkg="./sim/c08", race=False, quick=600000, thorough=12000000),
+    "C09": dict(pkg="./sim/c09", race=False, quick=2000000, thorough=40000000, checkptr=True, aslimit=True),
+    "C10": dict(pkg="./sim/c10", race=True, quick=120000, thorough=2400000),
+    "C11": dict(pkg="./sim/c11", race=False, quick=1500000, thorough=30000000),
+    "C15": dict(pkg="./sim/c15", race=False, quick=2000000, thorough=40000000),
+    "C17": dict(pkg="./sim/c17", race=True, quick=120000, thorough=2400000,
                 autoyield=dict(call="simPoint(%q)", files=["syncutil/sema.go", "syncutil/onceconstructor.go"])),
-    "C18": dict(pkg="./sim/c18", race=True, quick=16_000, thorough=1_600_000),
-    "C19": dict(pkg="./sim/c19", race=True, quick=12_000, thorough=1_200_000),
-    "C20": dict(pkg="./sim/c20", race=True, quick=10_000, thorough=1_000_000),
+    "C18": dict(pkg="./sim/c18", race=True, quick=200000, thorough=4000000),
+    "C19": dict(pkg="./sim/c19", race=True, quick=60000, thorough=1200000),
+    "C20": dict(pkg="./sim/c20", race=True, quick=40000, thorough=800000),
 }
 
 WALL_CAP = {"quick": 150, "thorough": 3000}
